@@ -31,8 +31,9 @@ pub enum Op {
     Play { msid: u32, txid: f64, key: Option<String>, nargs: usize },
     /// `id`: the stream the command names when its argument is an exact u32 (None: no argument, or
     /// a number that names no stream); `raw`: the number actually sent when it is not `id`
-    CloseStream { id: Option<u32>, raw: Option<f64> },
-    DeleteStream { id: Option<u32>, raw: Option<f64> },
+    /// `on`: the message stream the command itself travels on when that is not the stream it names
+    CloseStream { id: Option<u32>, raw: Option<f64>, on: Option<u32> },
+    DeleteStream { id: Option<u32>, raw: Option<f64>, on: Option<u32> },
     Audio { msid: u32, ts: u32, data: Vec<u8> },
     Video { msid: u32, ts: u32, data: Vec<u8> },
     SetDataFrame { msid: u32, well_formed: bool },
